@@ -2,6 +2,7 @@ import SygmaModel.Drv.Util
 import SygmaModel.Drv.C04
 import SygmaModel.Drv.C05
 import SygmaModel.Model.C19
+import SygmaModel.Drv.C14
 namespace Sygma.Drv.C19
 open Sygma.C04 Sygma.C05 Sygma.C19 Sygma.Drv.C04 Sygma.Drv.C05
 
@@ -132,6 +133,9 @@ def handle (op : String) (args : List String) (impl : String) : Option Verdict :
       | _ => false
     let overlap := (histCalls hA).any fun c1 => (histCalls hB).any fun c2 => decide (c1.s ≤ c2.e ∧ c2.s ≤ c1.e)
     return ⟨m, ok, s!"tworel:{kindStr kind}:overlap={overlap}:common={min common.length 3}"⟩
+  -- the per-batch signing session ids of the EVM executor (`<message id>-<batch index>`): what `Execute` hashes and signs
+  -- and under which session id, as a function of the delivery only (model and predicate are C14's `exec`)
+  | "evmsession", args => (Sygma.Drv.C14.handle "exec" args impl).map fun v => { v with tag := "evmsession:" ++ v.tag }
   | _, _ => none
 
 end Sygma.Drv.C19
